@@ -154,14 +154,20 @@ func (s *stopImpl) cacheClosestStops() error {
 }
 
 func (s *stopImpl) closestStops() (ModelStops, error) {
+	// the cache is filled while solver runs work in parallel: read it under
+	// the lock as well
+	s.model.mutex.RLock()
+	closest := s.closest
+	s.model.mutex.RUnlock()
+	if closest != nil {
+		return closest, nil
+	}
+	s.model.mutex.Lock()
+	defer s.model.mutex.Unlock()
 	if s.closest == nil {
-		s.model.mutex.Lock()
-		defer s.model.mutex.Unlock()
-		if s.closest == nil {
-			err := s.cacheClosestStops()
-			if err != nil {
-				return nil, err
-			}
+		err := s.cacheClosestStops()
+		if err != nil {
+			return nil, err
 		}
 	}
 	return s.closest, nil
